@@ -198,10 +198,14 @@ func (c *Coll) Dump(flavor int) []uint32 {
 			}
 		})
 		for _, s := range c.Sorts {
-			d, _ := c.Desc(s[1])
+			d, attached := c.Desc(s[1])
 			seq := [][2]any{}
 			txn.Ascend(s[0], func(idx uint32) {
 				w.Track(idx)
+				if !attached { // the sorted column was dropped: nothing to read at the stop
+					seq = append(seq, [2]any{int(idx), []int{}})
+					return
+				}
 				p := c.ReadRow(txn, column.Row{}, d, 1)
 				seq = append(seq, [2]any{int(idx), p[1]})
 			})
